@@ -1,6 +1,7 @@
 package main
 
 import (
+	"bufio"
 	"bytes"
 	"errors"
 	"fmt"
@@ -92,23 +93,68 @@ func drain(r io.Reader, limit int) (data []byte, end string) {
 	return drainExpect(r, limit, errFault)
 }
 
-// drainExpect: "fault" means exactly the error value the source was given
+// plainWriter hides bytes.Buffer's ReadFrom, so io.Copy has to use the source's WriteTo or its own loop
+type plainWriter struct{ b *bytes.Buffer }
+
+func (w plainWriter) Write(p []byte) (int, error) { return w.b.Write(p) }
+
+var drainTurn int
+
+// drainExpect: "fault" means exactly the error value the source was given.  How a caller consumes the
+// returned stream must not matter, so the way of draining rotates from call to call: 512-byte reads,
+// a few single-byte reads followed by io.Copy (which uses the stream's WriteTo when it has one),
+// io.Copy from the start, one large buffer, io.ReadAll, and a bufio.Reader on top.
 func drainExpect(r io.Reader, limit int, fault error) (data []byte, end string) {
-	buf := make([]byte, 512)
+	classify := func(err error) string {
+		switch {
+		case err == nil || err == io.EOF:
+			return "eof"
+		case err == fault:
+			return "fault"
+		case err == io.ErrUnexpectedEOF:
+			return "ueof"
+		default:
+			return "other:" + err.Error()
+		}
+	}
+	drainTurn++
+	mode := drainTurn % 7
+	size := 512
+	switch mode {
+	case 1, 2, 5:
+		if mode == 1 {
+			one := make([]byte, 1)
+			for i := 0; i < 3; i++ {
+				n, err := r.Read(one)
+				data = append(data, one[:n]...)
+				if err != nil {
+					return data, classify(err)
+				}
+			}
+		}
+		var b bytes.Buffer
+		var err error
+		if mode == 5 {
+			_, err = bufio.NewReaderSize(r, 64).WriteTo(plainWriter{&b})
+		} else {
+			_, err = io.Copy(plainWriter{&b}, r)
+		}
+		return append(data, b.Bytes()...), classify(err)
+	case 3:
+		rest, err := io.ReadAll(r)
+		return rest, classify(err)
+	case 4:
+		size = 1 << 16
+	case 6:
+		size = 1
+		limit = limit*512 + 16
+	}
+	buf := make([]byte, size)
 	for i := 0; i < limit; i++ {
 		n, err := r.Read(buf)
 		data = append(data, buf[:n]...)
 		if err != nil {
-			switch {
-			case err == io.EOF:
-				return data, "eof"
-			case err == fault:
-				return data, "fault"
-			case err == io.ErrUnexpectedEOF:
-				return data, "ueof"
-			default:
-				return data, "other:" + err.Error()
-			}
+			return data, classify(err)
 		}
 	}
 	return data, "none"
